@@ -4,7 +4,7 @@
 From Coq Require Import Permutation.
 From Verif Require Import Base.Lex Region.Model Region.Ord Region.ProofsContains Region.ProofsGroup Region.ProofsInsert
   Region.ProofsMerge Region.ProofsGap Region.ProofsPhase1 Region.ProofsPhase2
-  Region.Converge Region.ProofsConvA Region.ProofsConvB Region.ProofsConvC.
+  Region.Converge Region.ProofsConvA Region.ProofsConvB Region.ProofsConvC Region.PdCodec.
 Open Scope N_scope.
 
 (* ---- containment ---- *)
@@ -174,7 +174,7 @@ Theorem C09_converges_served : forall truth cur_of pd budget fuel k T c c',
   cinv truth c ->
   round truth cur_of pd budget fuel c k = (true, c') ->
   exists e, In e (c_sorted c') /\ r_verid e = d_verid T /\ r_contains e k = true /\
-            rpc_ctx c' (r_verid e) = Some (e, d_leader T) /\ store_reply truth cur_of (r_verid e) (d_leader T) = RepOk.
+            store_reply truth cur_of (r_verid e) (d_leader T) = RepOk /\ nth (r_work e) (r_peers e) (0, 0) = d_leader T.
 Proof. intros truth cur_of pd budget fuel k T c c' H1 H2 H3 H4 H5 H6 H7 H8. exact (round_served truth H1 cur_of H2 pd H3 budget fuel H4 H5 k T H6 H7 c c' H8). Qed.
 Print Assumptions C09_converges_served.
 
@@ -182,10 +182,31 @@ Print Assumptions C09_converges_served.
    and updating entries in place *)
 Theorem C09_converges_inv_insert : forall truth c r T,
   truth_wf truth -> cinv truth c -> In T truth -> of_truth r T -> fresh r -> (r_work r < length (r_peers r))%nat ->
-  exists c' deleted, insert_region c r = (true, c') /\ cinv truth c' /\ In (inherit r deleted) (c_sorted c') /\
+  length (r_sepochs r) = length (r_peers r) ->
+  exists c' deleted, insert_region c r = (true, c') /\ cinv truth c' /\ c_sepochs c' = c_sepochs c /\ In (inherit r deleted) (c_sorted c') /\
     (forall x, In x (c_sorted c') -> x = inherit r deleted \/ In x (c_sorted c)).
 Proof. intros truth c r T H. exact (insert_truth truth H c r T). Qed.
 Print Assumptions C09_converges_inv_insert.
+
+(* ---- through pd_codec.go (txn mode) ---- *)
+(* [codec_pd raw] is the PD the cache sees behind CodecPDClient: requests memcomparable-encoded (C19's encode_bytes),
+   boundaries of answers decoded. If the PD answers "region of enc(k)" with a region whose encoded range holds enc(k)
+   (boundaries empty or encodings; an end boundary never the encoding of the empty key), every LocateKey/LocateEndKey
+   result contains the key: decoding preserves order and containment. *)
+Theorem C09_codec_preserves_containment : forall s e k s' e',
+  enc_bound s -> enc_bound_end e -> dec_key s = Some s' -> dec_key e = Some e' ->
+  contains s e (Codec.Model.encode_bytes k) = contains s' e' k.
+Proof. exact dec_contains. Qed.
+Print Assumptions C09_codec_preserves_containment.
+Theorem C09_contains_codec : forall raw budget fuel t c key is_end r c' t',
+  raw_get_sound raw -> raw_prev_sound raw -> (is_end = true -> key <> []) ->
+  find_region_by_key (codec_pd raw) budget fuel t c key is_end = (Ok r, c', t') ->
+  (if is_end then r_contains_end r key else r_contains r key) = true.
+Proof.
+  intros raw budget fuel t c key is_end r c' t' H1 H2.
+  exact (find_region_by_key_holds (codec_pd raw) budget (codec_get_sound raw H1) (codec_prev_sound raw H2) fuel t c key is_end r c' t').
+Qed.
+Print Assumptions C09_contains_codec.
 
 (* ---- non-vacuity ---- *)
 Definition ex_pd (t : nat) (q : pd_req) : pd_ans :=
@@ -221,8 +242,10 @@ Definition cv_R2 := mkDesc 2 [98] [] 2 1 [(3, 1); (4, 2)] (3, 1).
 Definition cv_truth := [cv_R1; cv_R2].
 Definition cv_pd (t : nat) (q : pd_req) : pd_ans :=
   match q with ReqGet k => PdOne (Some (if lex_ltb k [98] then cv_R1 else cv_R2)) | _ => PdOne None end.
-Definition cv_stale := mkRegion 1 [] [] 1 1 [(1, 1); (2, 2)] 0 false 0 false false false.
-Definition cv_cache := mkCache [cv_stale] [((1, 1, 1), [])] [(1, (1, 1))].
+Definition cv_stale := mkRegion 1 [] [] 1 1 [(1, 1); (2, 2)] 0 false 0 false false false [0; 0].
+Definition cv_cache := mkCache [cv_stale] [((1, 1, 1), [])] [(1, (1, 1))] [].
+(* the same cache after a send failure on store 1 (its fail-epoch is 1, the entry recorded 0) *)
+Definition cv_cache_failed := mkCache [cv_stale] [((1, 1, 1), [])] [(1, (1, 1))] [(1, 1)].
 Lemma cv_truth_wf : truth_wf cv_truth.
 Proof.
   constructor.
@@ -249,13 +272,18 @@ Proof.
   - intros T v cf [<-|[<-|[]]] H; cbn in H; [injection H as <- <-; cbn; lia|discriminate].
   - intros x T [<-|[]] [<-|[<-|[]]] H; [cbn; lia|discriminate H].
   - intros x [<-|[]]. repeat split; [left; reflexivity|discriminate|cbn; lia|intros H; exfalso; apply H; reflexivity].
+  - intros x [<-|[]]. reflexivity.
 Qed.
+Lemma cv_cache_failed_inv : cinv cv_truth cv_cache_failed.
+Proof. destruct cv_cache_inv as [A B C D E F G H I]. constructor; assumption. Qed.
 Example C09_converges_nonvacuous :
   truth_wf cv_truth /\ cinv cv_truth cv_cache /\ cinv cv_truth empty_cache /\
   rounds cv_truth (fun _ => cv_truth) cv_pd 3 3 3 cv_cache [99] = false /\
-  rounds cv_truth (fun _ => cv_truth) cv_pd 3 3 4 cv_cache [99] = true.
+  rounds cv_truth (fun _ => cv_truth) cv_pd 3 3 4 cv_cache [99] = true /\
+  cinv cv_truth cv_cache_failed /\ rounds cv_truth (fun _ => cv_truth) cv_pd 3 3 1 cv_cache_failed [99] = false /\
+  rounds cv_truth (fun _ => cv_truth) cv_pd 3 3 3 cv_cache_failed [99] = true.
 Proof.
-  split; [exact cv_truth_wf|]. split; [exact cv_cache_inv|]. split; [|split; vm_compute; reflexivity].
+  split; [exact cv_truth_wf|]. split; [exact cv_cache_inv|]. split; [|split; [vm_compute; reflexivity|split; [vm_compute; reflexivity|split; [exact cv_cache_failed_inv|split; vm_compute; reflexivity]]]].
   constructor; cbn [empty_cache c_sorted c_regions c_latest].
   - constructor.
   - intros x T [].
@@ -264,5 +292,6 @@ Proof.
   - intros x T [].
   - intros T v cf _ H. discriminate H.
   - intros x T [].
+  - intros x [].
   - intros x [].
 Qed.
